@@ -29,6 +29,7 @@ type Contract struct {
 	Results  []*types.Var
 	ParamNm  []string
 	ResultNm []string
+	IsInit   bool
 }
 
 type SpecFuncInfo struct {
@@ -67,6 +68,7 @@ type Engine struct {
 	GhostV    map[string]*GhostFieldInfo // ghost globals: Heap + Sort
 	Axioms    []*AxiomInfo
 	Guards    []GuardInfo
+	GlobalInvs []*GlobalInv
 	HeapSorts map[string]*smt.Sort
 	HeapGo    map[string]types.Type
 	typeTags  map[string]int
@@ -82,6 +84,11 @@ type Engine struct {
 
 type AxiomInfo struct {
 	*spec.Axiom
+	Pkg *types.Package
+}
+
+type GlobalInv struct {
+	*spec.Clause
 	Pkg *types.Package
 }
 
@@ -196,6 +203,9 @@ func Load(repo string, patterns []string, extraSpecs []string) (*Engine, error) 
 		}
 		for _, g := range f.Guarded {
 			e.Guards = append(e.Guards, GuardInfo{GuardSpec: g, Pkg: pkg})
+		}
+		for _, gi := range f.GlobalInvs {
+			e.GlobalInvs = append(e.GlobalInvs, &GlobalInv{Clause: gi, Pkg: pkg})
 		}
 	}
 	// pass 2: function contracts
